@@ -8,8 +8,28 @@ from .py2lean import Unsupported
 GENERATORS = sorted(f[:-3] for f in os.listdir(os.path.dirname(os.path.abspath(__file__))) if f.startswith("gen_") and f.endswith(".py"))
 
 
+OUTPUTS_FILE = os.path.join(os.path.dirname(os.path.abspath(__file__)), "outputs.json")
+
+
+def _load_outputs():
+    import json
+    try:
+        return json.load(open(OUTPUTS_FILE))
+    except Exception:
+        return {}
+
+
 def regenerate(ctx=None, only=None):
+    """A generator that fails is a broken tie ONLY for the properties whose Props modules import (transitively) one of
+    that generator's output files: failures are collected in ctx.translator_failures and attributed in common.prove.
+    outputs.json (tracked) remembers which Generated files each generator writes, so the attribution also works when the
+    generator raises before producing anything."""
+    import json
     changed = []
+    outputs = _load_outputs()
+    outputs_before = json.dumps(outputs, sort_keys=True)
+    if ctx is not None and not hasattr(ctx, "translator_failures"):
+        ctx.translator_failures = []
     for g in GENERATORS:
         if only and g not in only:
             continue
@@ -18,16 +38,17 @@ def regenerate(ctx=None, only=None):
             files = mod.generate()
         except Unsupported as e:
             if ctx:
-                ctx.problem("translator", "%s: source left the translatable subset" % g, e)
+                ctx.translator_failures.append((g, outputs.get(g), "%s: source left the translatable subset" % g, str(e)))
             else:
                 print("translator", g, "Unsupported:", e)
             continue
         except Exception:
             if ctx:
-                ctx.problem("translator", "%s crashed" % g, traceback.format_exc())
+                ctx.translator_failures.append((g, outputs.get(g), "%s crashed" % g, traceback.format_exc()))
             else:
                 traceback.print_exc()
             continue
+        outputs[g] = sorted(files)
         for name, text in files.items():
             path = os.path.join(common.LEAN, "Generated", name)
             old = open(path).read() if os.path.exists(path) else None
@@ -35,6 +56,8 @@ def regenerate(ctx=None, only=None):
                 with open(path, "w") as f:
                     f.write(text)
                 changed.append(name)
+    if json.dumps(outputs, sort_keys=True) != outputs_before:
+        json.dump(outputs, open(OUTPUTS_FILE, "w"), indent=1, sort_keys=True)
     from lib import roots
     roots.write_roots()
     if ctx is not None:
